@@ -5,8 +5,29 @@ import session_common as SC
 
 
 def tasks(tier, seed):
-    ts = SCH.sched_tasks(tier, ['CHECK_C01', 'CHECK_C04', 'CHECK_C05'], 'sched', ('C01:', 'C04:', 'C05:'),
-                         {'assert', 'memory', 'uncaught_exception', 'terminate', 'deadlock', 'leak', 'limit'})
+    kinds = {'assert', 'memory', 'uncaught_exception', 'terminate', 'deadlock', 'leak', 'limit', 'schedule_dependent'}
+    ts = SCH.sched_tasks(tier, ['CHECK_C01', 'CHECK_C04', 'CHECK_C05'], 'sched', ('C01:', 'C04:', 'C05:'), kinds, digest=True)
+    # object bytes an exact multiple of the container size: the point where an extra empty container could depend on timing
+    ts += SCH.sched_tasks(tier, ['CHECK_C01', 'CHECK_C04', 'CHECK_C05'], 'sched_exact', ('C01:', 'C04:', 'C05:'), kinds, digest=True,
+                          extra_defs='#define CONTAINER_DIVIDES_PAYLOAD 2\n')
+
+    def post(res):
+        # the finished file must be the same term-for-term under every explored schedule of one configuration
+        groups = {}
+        for tid, r in res.items():
+            cfg = tid.rsplit('.sync', 1)[0]
+            for d, sched in r.get('out_digests', []):
+                if 'file' in d:
+                    groups.setdefault(cfg, []).append((d['file'], tid, sched))
+        out = []
+        for cfg, lst in groups.items():
+            ref = lst[0][0]
+            for dg, tid, sched in lst:
+                if dg != ref:
+                    out.append((tid, dict(kind='schedule_dependent', msg='the bytes of the written file differ between two schedules of the same session (%s)' % cfg,
+                                          where='post', extra=dict(schedule=sched), inputs=[])))
+                    break
+        return out
     meta = dict(
         level='model_checking',
         explanation='Every schedule with at most one preemption (at each mutex release / thread start, in favour of each other '
@@ -19,5 +40,5 @@ def tasks(tier, seed):
         trusted_base=CC.TRUSTED + SC.SESSION_TRUST,
         bounds='2 objects; preemption bound 1 (complete); quick 1 configuration, thorough 3 (+ early close)',
         assumptions=['schedules with 2 or more preemptions are covered only through the monitor reduction argument'],
-        validate=0)
+        post=post, validate=0)
     return ts, meta
